@@ -196,6 +196,8 @@ class Proto:
             (r"StringPool::write_pool::<", fallible("write_pool", "unit")),
             (r"StringPool::write_data::<", fallible("write_data", "unit")),
             (r"(Insert|Update|Delete)::exec::<F>$", fallible("exec", "unit")),
+            (r"Select::exec::<F>$", fallible("exec_select", "unit")),
+            (r"^is_valid$|streamname::is_valid$", lambda ex, callee, args, pc, events: [(pc, events, BoolV(P.ctx.fresh_bool("name_valid").term))]),
             (r"Option::<.*>::take$", m_take),
             (r"Option::<.*>::is_none$", m_is_none),
             (r"Option::<.*>::as_(mut|ref)$", m_as_mut),
@@ -208,8 +210,8 @@ class Proto:
             (r"<dyn Finish<F> as Finish<F>>::finish$", m_dyn_finish),
         ]
 
-    def run(self, fn_rx, finisher_some, tag, extra_args=0, by_value=False):
-        ex = M.Exec(self.mir, self.ctx, models=self.models())
+    def run(self, fn_rx, finisher_some, tag, extra_args=0, by_value=False, havoc=False):
+        ex = M.Exec(self.mir, self.ctx, models=self.models(), havoc_unknown=havoc)
         s, p = self.fresh_state(ex, finisher_some, tag)
         fn = self.mir.find(fn_rx)
         if by_value:
@@ -422,5 +424,52 @@ def protocol_groups(mir, ctx, which):
                     g.witness.append(Query("w_%s_%d" % (tag, len(g.witness)), o.pc, "sat"))
                 if nret == 0:
                     raise EncodingError("protocol: no return path through %s" % name)
+        groups.append(g)
+    # ---------------------------------------------------------------- read-only entry points (C16)
+    if "readonly" in which:
+        g = Group("protocol_readonly", ["package::Package::select_rows", "package::Package::read_stream", "package::Package::flush",
+                                         "package::Package::into_inner", "package::<Package as Drop>::drop"], confirm=_confirm,
+                  note="the &mut-self READ entry points (select_rows, read_stream) never arm the finisher, never change a dirty flag and "
+                       "issue no creating/removing/writing container call; closing a package whose finisher is not armed (flush, "
+                       "into_inner, Drop) runs no finisher and issues no creating/removing/writing container call")
+        MUTATING = ("create_stream", "write_summary", "write_pool", "write_data", "exec_mut")
+        for name, rx, extra in (("select_rows", r"package::.*::select_rows$", 1), ("read_stream", r"package::.*::read_stream$", 1)):
+            for fin in (False, True):
+                tag = "%s_%s" % (name, "armed" if fin else "unarmed")
+                s, p, outs = P.run(rx, fin, tag, extra_args=extra, havoc=True)
+                get = {"summary_dirty_before": s.term, "pool_dirty_before": p.term}
+                nret = 0
+                for o in outs:
+                    if o.kind == "panic":
+                        # unwrap on comp == None cannot happen (comp is always Some); other panics are C09's subject
+                        continue
+                    if o.kind != "return":
+                        continue
+                    nret += 1
+                    if P.finisher_is_some(o.heap) != fin:
+                        q(g, "arms_" + tag, o.pc, "%s changes the finisher (a read-only call must not arm it)" % name, get)
+                    sflag, pflag = P.flag(o.heap, "summary"), P.flag(o.heap, "pool")
+                    if not (isinstance(sflag, BoolV) and sflag.term == s.term):
+                        q(g, "sflag_" + tag, o.pc, "%s changes is_summary_info_modified" % name, get)
+                    if not (isinstance(pflag, BoolV) and pflag.term == p.term):
+                        q(g, "pflag_" + tag, o.pc, "%s changes the string pool's modified flag" % name, get)
+                    bad = [e for e in o.events if e[0] in MUTATING or (e[0] == "call" and re.search(r"create_stream|remove_stream|create_storage|remove_storage|set_", e[1]))]
+                    if bad:
+                        q(g, "writes_" + tag, o.pc, "%s issues a mutating container call: %r" % (name, bad[0][:2]), get)
+                    g.witness.append(Query("w_%s_%d" % (tag, len(g.witness)), o.pc, "sat"))
+                if nret == 0:
+                    raise EncodingError("protocol: no return path through %s" % name)
+        for name, rx, byval in (("flush", r"package::.*::flush$", False), ("into_inner", r"package::.*::into_inner$", True),
+                                ("drop", r"package::<impl at [^>]*>::drop$", False)):
+            tag = name + "_unarmed_ro"
+            s, p, outs = P.run(rx, False, tag, by_value=byval)
+            get = {"summary_dirty_before": s.term, "pool_dirty_before": p.term}
+            for o in outs:
+                if o.kind != "return":
+                    continue
+                bad = [e for e in o.events if e[0] in MUTATING or e[0] in ("finish-begin", "open_stream")]
+                if bad:
+                    q(g, "close_writes_" + tag, o.pc, "%s on a package whose finisher is not armed runs %r" % (name, bad[0][:2]), get)
+                g.witness.append(Query("w_%s_%d" % (tag, len(g.witness)), o.pc, "sat"))
         groups.append(g)
     return groups
